@@ -50,6 +50,13 @@ DriftNote(r, obs) ==
   (Prop = "C03" /\ Len(r.inp) <= 12) =>
      LET d == DriftKind(r, obs) IN IF d = "none" THEN TRUE ELSE PrintT(<<"DRIFT", d, r.tn>>)
 
+\* the same for Skip.tla: the code's fixed-size TABLE is compared exactly with the model's (a type that starts or stops
+\* declaring a size keeps C13/C18 as long as the size is right, so this is drift, not a violation)
+SK == INSTANCE Skip WITH SVariant <- "faithful"
+FixDrift(r) ==
+  LET f == SK!ImplFixed(r.E, Resolve(r.E, r.ty)) IN
+  IF f = r.fixed THEN TRUE ELSE PrintT(<<"DRIFT", "fixedtable", r.tn>>)
+
 VARIABLE l
 
 (***************************************************************************)
@@ -208,6 +215,7 @@ FixOK(r) ==
   /\ r.fixed # -1 => /\ FixedLen(r.E, rt) = r.fixed
                      /\ Len(r.out) = r.fixed
   /\ IsEncodingOf(r.E, r.ty, r.v, r.out)
+  /\ FixDrift(r)
 
 (***************************************************************************)
 (* len: peeking the element count (C18)                                    *)
